@@ -167,6 +167,12 @@ def _impl(tier, seed, search):
         S6 = np.r_[g.normal(size=3), v]
         L.check('isunittwist-true', bool(b.isunittwist(S6)), dict(S=S6), 'isunittwist rejects a unit twist')
         L.check('isunittwist-false', not bool(b.isunittwist(np.r_[S6[:3], v * (1 + abs(d))])), dict(S=S6), 'isunittwist accepts a non-unit twist')
+        # unit translational part does not make a twist unit unless the rotational part vanishes
+        uv_ = inputs.unit_axis(g); wmag = float(g.choice([0.5, 2.0, 1e-3, 1 + abs(d), 1 - min(abs(d), 0.5)]))
+        Sbad = np.r_[uv_, inputs.unit_axis(g) * wmag]
+        L.check('isunittwist-false(unit v)', not bool(b.isunittwist(Sbad)), dict(S=Sbad), 'isunittwist accepts a twist with unit translational part whose rotational part is neither zero nor unit', sig='isunittwist:unit-v')
+        L.check('isunittwist-true(prismatic)', bool(b.isunittwist(np.r_[uv_, 0, 0, 0])), dict(S=np.r_[uv_, 0, 0, 0]), 'isunittwist rejects a unit prismatic twist')
+        L.check('isunittwist2-false(unit v)', not bool(b.isunittwist2(np.r_[uv_[:2] / np.linalg.norm(uv_[:2]), wmag if abs(wmag - 1) > 1e-6 else 0.5])), dict(w=wmag), 'isunittwist2 accepts a planar twist with unit v and non-unit non-zero w', sig='isunittwist2:unit-v')
     return L.result()
 
 def correspondence(tier, seed):
